@@ -218,9 +218,11 @@ func checkC10(r *Run) {
 			}
 			r.check(stored, "r3", "sendRecv: waiter registered before the request leaves", s.Call.Pos(), "c.pending[tag] = resp precedes send", "the request can be on the wire before its waiter is in c.pending: a fast reply read by another goroutine finds no entry, is rejected as an unexpected tag and fails every pending call")
 		}
+		// every access to the pending table, wherever it is written (helpers included), holds
+		// pendingMu; the constructor fills the not yet published object
 		for _, fa := range db.Fields {
-			if fa.Root == sr && fa.Key == "p9.Client.pending" {
-				r.check(hasClass(fa.St.Locks, "p9.Client.pendingMu"), "r3", "sendRecv: pending accessed under pendingMu", fa.Sel.Pos(), "under pendingMu", "c.pending is accessed without pendingMu")
+			if fa.Key == "p9.Client.pending" && fa.Root.Key != "p9.NewClient" {
+				r.check(hasClass(fa.St.Locks, "p9.Client.pendingMu"), "r3", fa.Root.Key+": pending accessed under pendingMu", fa.Sel.Pos(), "under pendingMu", "c.pending is accessed without pendingMu in "+fa.Root.Key)
 			}
 		}
 		// r7: exits after the store
@@ -288,21 +290,26 @@ func checkC10(r *Run) {
 		})
 		r.check(tName != "" && okLookup && okDelete && okSignal, "r4", "handleOne completes the waiter of the received tag", ho.Decl.Pos(), "resp := pending[t]; delete(pending, t); resp.done <- …",
 			fmt.Sprintf("the reply is not delivered to exactly the waiter registered for the received tag (lookup by recv's tag=%v, entry deleted=%v, that object's done signalled=%v)", okLookup, okDelete, okSignal))
-		for _, fa := range db.Fields {
-			if fa.Root == ho && fa.Key == "p9.Client.pending" {
-				r.check(hasClass(fa.St.Locks, "p9.Client.pendingMu"), "r4", "handleOne: pending accessed under pendingMu", fa.Sel.Pos(), "under pendingMu", "c.pending is accessed without pendingMu in handleOne")
-			}
-		}
+
 		// lookup callback: the literal passed to recv
 		for _, s := range m.callsIn(ho, "p9.recv") {
-			lit, _ := unparen(s.Call.Args[len(s.Call.Args)-1]).(*ast.FuncLit)
-			if lit == nil {
-				r.undecided("r4", "handleOne: lookup callback", s.Call.Pos(), "recv is not given a function literal")
+			// the callback: a function literal, or a declared function / method value
+			cbArg := unparen(s.Call.Args[len(s.Call.Args)-1])
+			var cbFn ast.Node
+			var cbExits []*ExitRec
+			if l, isLit := cbArg.(*ast.FuncLit); isLit {
+				cbFn, cbExits = l, db.Exits[ho]
+			} else if tf := r.L.FuncOf(callee(info, &ast.CallExpr{Fun: cbArg})); tf != nil && tf.Decl.Body != nil {
+				cbFn, cbExits = tf.Decl, db.Exits[tf]
+			}
+			if cbFn == nil {
+				r.undecided("r4", "handleOne: lookup callback", s.Call.Pos(), "recv is given neither a function literal nor a declared function")
 				continue
 			}
+			lit := cbFn
 			var unexp, bad, rlerr bool
-			for _, ex := range db.Exits[ho] {
-				if ex.Fn != ast.Node(lit) || ex.Ret == nil || len(ex.Ret.Results) != 2 || ex.St.Dead {
+			for _, ex := range cbExits {
+				if ex.Fn != cbFn || ex.Ret == nil || len(ex.Ret.Results) != 2 || ex.St.Dead {
 					continue
 				}
 				r1 := norm(ex.Ret.Results[1])
